@@ -137,6 +137,22 @@ def fam_fanin_pow():
     return out
 
 
+def fam_innode_plus_edge():
+    """an input variable that is fed by an operator of its own node (state or algebraic output) AND by an edge"""
+    out = []
+    for variant in range(3):
+        fp = FP()
+        o_src = op_source(fp, 'srca', x='u', lam='la1')
+        o_sg = op_sigmoid_alg(fp, 'sgb', m='u', v='vv')
+        o_li = op_leaky(fp, 'li', x='x', u='u')
+        ops = {'srca': o_src, 'sgb': o_sg, 'li': o_li}
+        first = [['srca', 'li'], ['sgb', 'li'], ['srca', 'sgb', 'li']][variant]
+        nodes = {'n0': NodeSpec(first, _node_overrides(fp, ops, first)), 'n1': NodeSpec(['li'], _node_overrides(fp, ops, ['li']))}
+        edges = [EdgeSpec('n1/li/x', 'n0/li/u', fp()), EdgeSpec('n0/li/x', 'n1/li/u', fp())]
+        out.append((f"F1:innode+edge:{variant}", ModelSpec('m', ops, nodes, edges, note=f"in-node producers {first[:-1]} and an edge feed li.u")))
+    return out
+
+
 def fam_mixed_nodes(seed=0, n=12):
     """F2b: 2-3 nodes of different operator structure (rpo+sg, li, two-input) with random edge sets incl. edges from
     two different variables of one node into one target variable, weight 1.0 / omitted / generic."""
